@@ -1384,6 +1384,18 @@ Proof.
   pose proof (wsum_nonneg (fun k0 => keqb (ident k0) x) (leaves h2) Hn2). lia.
 Qed.
 
+(* the harness tabulates tables after every operation; inside the array bounds that is the identity *)
+Lemma freeze_tab s r c : (r < depth)%nat -> (c < width)%nat ->
+  tab (hh_freeze width depth max_key_len s) r c = tab s r c.
+Proof.
+  intros Hr Hc. unfold hh_freeze. cbn [tab].
+  set (F := fun r0 : nat => map (fun c0 : nat => tab s r0 c0) (seq 0 width)).
+  rewrite (nth_indep (map F (seq 0 depth)) [] (F O)) by (rewrite map_length, seq_length; assumption).
+  rewrite map_nth, seq_nth by assumption. unfold F. cbn [Nat.add].
+  rewrite (nth_indep _ empty_cell ((fun c0 : nat => tab s r c0) O)) by (rewrite map_length, seq_length; assumption).
+  rewrite (map_nth (fun c0 : nat => tab s r c0)), seq_nth by assumption. reflexivity.
+Qed.
+
 Lemma ngram_is_adds h k n :
   eval (HWindows h k n) = eval (HNgram h k n) /\ forall x, truth (HWindows h k n) x = truth (HNgram h k n) x.
 Proof. split; [apply eval_windows|intros; apply truth_windows]. Qed.
